@@ -135,7 +135,7 @@ func mintLeaf(spec LeafSpec, pub crypto.PublicKey, issuer *CA) (*x509.Certificat
 
 // ChainKind describes how the leaf is connected to the layout's root "rootA".
 // ground truth: does the leaf chain to a layout root through available intermediates, now?
-var chainKinds = []string{"direct", "inter-layout", "inter-caller", "inter2-mixed", "missing-inter", "expired-leaf", "notyet-leaf",
+var chainKinds = []string{"direct", "inter-layout", "inter-caller", "inter2-mixed", "missing-inter", "expired-leaf", "notyet-leaf", "foreign-inter-caller", "foreign-root-caller",
 	"foreign-root", "expired-inter", "nonca-issuer", "second-root"}
 
 type ChainSetup struct {
@@ -195,6 +195,18 @@ func setupChain(kind string) ChainSetup {
 	case "nonca-issuer":
 		s.Issuer = notCA
 		s.LayoutInters = []*CA{notCA}
+		s.GroundTruthOK = false
+	case "foreign-inter-caller":
+		// the CALLER supplies an intermediate that chains to a root the layout does not list: caller
+		// intermediates help building a chain, they are never trust anchors
+		// (seeded change c07-caller-inters-into-rootpool)
+		s.Issuer = interF
+		s.CallerInters = []*CA{interF}
+		s.GroundTruthOK = false
+	case "foreign-root-caller":
+		// … not even when the caller passes the foreign ROOT itself as an "intermediate"
+		s.Issuer = foreign
+		s.CallerInters = []*CA{foreign}
 		s.GroundTruthOK = false
 	case "second-root":
 		s.Issuer = interB
